@@ -6,6 +6,7 @@ import ast
 
 from .. import effects, facts, fitrules
 from ..astutil import (call_name, calls_in, const_str, dotted, func_params,
+                       kwarg,
                        norm, walk_no_nested)
 from ..loader import AnchorError, Undecided
 from .c03 import settings_mutations
@@ -265,6 +266,13 @@ def r3_no_handout(ctx):
                 if isinstance(v, ast.Subscript) and facts.is_fp_receiver(
                         v.value, al_fp) and const_str(v.slice) in dflt:
                     roots[st.targets[0].id] = f"setting:{const_str(v.slice)}"
+                # name = fp.get("key"[, default])
+                if isinstance(v, ast.Call) and isinstance(
+                        v.func, ast.Attribute) and v.func.attr == "get" \
+                        and v.args and const_str(v.args[0]) in dflt and \
+                        facts.is_fp_receiver(v.func.value, al_fp):
+                    roots[st.targets[0].id] = \
+                        f"setting:{const_str(v.args[0])}"
         amap = effects.alias_map(f, roots)
         for r in walk_no_nested(f, False):
             if not isinstance(r, ast.Return) or r.value is None:
@@ -278,6 +286,11 @@ def r3_no_handout(ctx):
                 elif isinstance(v, ast.Subscript) and facts.is_fp_receiver(
                         v.value, al_fp) and const_str(v.slice) in dflt:
                     key = const_str(v.slice)
+                elif isinstance(v, ast.Call) and isinstance(
+                        v.func, ast.Attribute) and v.func.attr == "get" \
+                        and v.args and const_str(v.args[0]) in dflt and \
+                        facts.is_fp_receiver(v.func.value, al_fp):
+                    key = const_str(v.args[0])
                 if key is None:
                     continue
                 n += 1
@@ -318,6 +331,57 @@ def r5_change_detection(ctx):
         "place and passing it again is then not noticed)")
 
 
+def r6_poc_leaves_force_alone(ctx):
+    """compute_poc (used by two preprocessing steps on the curve's own
+    force column) does not edit the array it is given: either every
+    estimator leaves its input alone, or it works on the private copy that
+    compute_preproc_clip_approach makes."""
+    pm = ctx.repo.mod("poc")
+    cp = pm.func("compute_poc")
+    ctx.analysed(cp)
+    effects.RETURN_ALIAS.clear()
+    for q, f in pm.funcs.items():
+        if "." in q:
+            continue
+        i = effects.returns_alias_of(f)
+        if i is not None:
+            effects.RETURN_ALIAS[q] = i
+    try:
+        al = effects.alias_map(cp, {"force": "param:force"})
+        for node, root, how in effects.mutations(cp, al):
+            ctx.fail(node, how, f"compute_poc modifies the force array it "
+                     f"was given ({how})")
+        clip_alias = "compute_preproc_clip_approach" in effects.RETURN_ALIAS
+        n = 0
+        for q, f in pm.funcs.items():
+            decs = [d for d in f.decorator_list if isinstance(d, ast.Call)
+                    and call_name(d) == "poc"]
+            if not decs:
+                continue
+            n += 1
+            ps = func_params(f)
+            al2 = effects.alias_map(f, {ps[0]: f"param:{ps[0]}"})
+            muts = effects.mutations(f, al2)
+            pre = kwarg(decs[0], "preprocessing")
+            clipped = pre is not None and "clip_approach" in norm(pre)
+            private = clipped and not clip_alias
+            if muts and not private:
+                node, root, how = muts[0]
+                ctx.fail(node, how,
+                         f"estimator {q} edits its input in place ({how}) "
+                         f"and compute_poc hands it "
+                         f"{'a view of ' if clipped else ''}the caller's "
+                         f"array: computing a contact point changes the "
+                         f"curve's force column")
+            else:
+                ctx.ok(f, f"{q}: input left alone"
+                       + (" (works on the clipped private copy)"
+                          if muts else ""))
+        ctx.floor("contact point estimators", n, 6)
+    finally:
+        effects.RETURN_ALIAS.clear()
+
+
 RULES = [
     ("C10-R1", "no in-place mutation of by-value arguments", r1_no_mutation),
     ("C10-R2", "no retention of caller objects by reference",
@@ -327,4 +391,6 @@ RULES = [
      r4_no_library_edit_of_settings),
     ("C10-R5", "change detection compares the full state of the stored and "
      "the passed settings", r5_change_detection),
+    ("C10-R6", "contact point estimation leaves the force array alone",
+     r6_poc_leaves_force_alone),
 ]
